@@ -16,6 +16,7 @@ VERIF = os.path.dirname(os.path.dirname(os.path.abspath(__file__)))
 REPO = os.environ.get("VT_REPO", "/repo")
 SRC = os.environ.get("VT_SRC") or os.path.join(REPO, "src")
 FAKEPKG = os.path.join(VERIF, "fakepkg")
+OUT = os.environ.get("VT_OUT") or VERIF  # evidence/ and new replays/ go here (mutant runs redirect it)
 
 for p in (FAKEPKG, SRC):
     if p in sys.path:
